@@ -35,7 +35,11 @@ func init() {
 	def := func(id string) {
 		bud(id, budget{ffRuns: 400, runs: 1600, wallSec: 50, chunk: 50}, budget{ffRuns: 20000, runs: 180000, wallSec: 780, chunk: 250, selftest: 40})
 	}
-	for _, id := range []string{"C01", "C02", "C03", "C05", "C06", "C07", "C08", "C09", "C10", "C11", "C12", "C14", "C15", "C16", "C17", "C18", "C19"} {
+	// crash sweeps run tens of worlds per case
+	for _, id := range []string{"C08", "C14"} {
+		bud(id, budget{ffRuns: 60, runs: 240, wallSec: 40, chunk: 5}, budget{ffRuns: 1500, runs: 13500, wallSec: 780, chunk: 25, selftest: 20})
+	}
+	for _, id := range []string{"C01", "C02", "C03", "C05", "C06", "C07", "C09", "C10", "C11", "C12", "C15", "C16", "C17", "C18", "C19"} {
 		def(id)
 	}
 }
@@ -147,6 +151,9 @@ func (e *checkEnv) runWorker(args ...string) ([]line, string, error) {
 	if err := cmd.Start(); err != nil {
 		return nil, "", err
 	}
+	// hard wall-clock bound on any worker invocation: a stuck worker is a harness failure, never a hang of the check
+	killer := time.AfterFunc(e.workerTimeout(args), func() { cmd.Process.Kill() })
+	defer killer.Stop()
 	var lines []line
 	rd := bufio.NewReaderSize(out, 1<<20)
 	for {
@@ -814,4 +821,14 @@ func slug(s string) string {
 		out = out[:80]
 	}
 	return out
+}
+
+func (e *checkEnv) workerTimeout(args []string) time.Duration {
+	if len(args) > 0 && args[0] == "run" {
+		if e.tier == "thorough" {
+			return 40 * time.Minute
+		}
+		return 6 * time.Minute
+	}
+	return 4 * time.Minute
 }
